@@ -389,7 +389,14 @@ impl World {
         let start = Instant::now();
         while self.subs[idx].last_change < max_id {
             if start.elapsed() > Duration::from_secs(30) {
-                return Ok(Err(vio("C12", "logged-change-never-delivered-to-the-creating-subscriber", json!({"last_seen": self.subs[idx].last_change, "logged": max_id}))));
+                let receivers = self.s.subs_cache.read().await.get(&self.subs[idx].id).map(|tx| tx.receiver_count());
+                let handle_present = self.s.agent.subs_manager().get(&self.subs[idx].id).is_some();
+                return Ok(Err(vio(
+                    "C12",
+                    "logged-change-never-delivered-to-the-creating-subscriber",
+                    json!({"last_seen": self.subs[idx].last_change, "logged": max_id, "sql": self.subs[idx].sql, "pending_bytes": self.subs[idx].pending.len(),
+                           "broadcast_receivers": receivers, "handle_present": handle_present, "catchup_buffer": verif::catchup_buffer(), "clients": self.clients.len()}),
+                )));
             }
             let sub = &mut self.subs[idx];
             for line in read_lines(&mut sub.body, &mut sub.pending, Duration::from_millis(30)).await? {
